@@ -95,6 +95,15 @@ def w_solve(ctx, rng, idx):
     A, b, dims, cplx, okind = problem(rng, mals=use_mals)
     gk = ['rank1', 'intermediate', 'maximal'][int(rng.integers(0, 3))]
     g = guess(rng, dims, cplx, gk)
+    if use_mals and rng.random() < 0.25:
+        # right-hand side of a solution with a graded spectrum (dominant part + correction of relative size 1e-6.5..1e-3.5)
+        with probe.oracle():
+            x1, x2 = guess(rng, dims, cplx, 'intermediate'), guess(rng, dims, cplx, 'intermediate')
+            eps = float(10 ** rng.uniform(-6.5, -3.5)) * float(x1.norm()) / max(float(x2.norm()), 1e-300)
+            bb = A @ (x1 + eps * x2)
+            if isinstance(bb, tt.TT):
+                b = bb
+                okind += '/graded_solution'
     solver = ['solve', 'lu'][int(rng.integers(0, 2))]
     name = 'mals' if use_mals else 'als'
     fn = sle.mals if use_mals else sle.als
@@ -152,6 +161,16 @@ def w_fixed_point(ctx, rng, idx):
     A, _, dims, cplx, okind = problem(rng, mals=use_mals)
     d = len(dims)
     xs = guess(rng, dims, cplx, ['rank1', 'intermediate'][int(rng.integers(0, 2))])
+    graded = use_mals and rng.random() < 0.4
+    if graded:
+        # a dominant low-rank part plus a correction of relative size 1e-6.5..1e-3.5: singular values far above the truncation
+        # threshold (1e-12 by default) but far below the leading ones - a correct solver keeps them
+        with probe.oracle():
+            corr = guess(rng, dims, cplx, 'intermediate')
+            eps = float(10 ** rng.uniform(-6.5, -3.5)) * float(xs.norm()) / max(float(corr.norm()), 1e-300)
+            xs = xs + eps * corr
+            full = xs.full()
+            xs = tt.TT(full, threshold=1e-13) if np.any(full) else xs  # (ranks of a sum exceed the maximal ones: admissible guesses have minimal ranks)
     with probe.oracle():
         b = A @ xs
         if not isinstance(b, tt.TT):  # all modes of size 1
@@ -160,7 +179,7 @@ def w_fixed_point(ctx, rng, idx):
     name = 'mals' if use_mals else 'als'
     fn = sle.mals if use_mals else sle.als
     ctx.describe({'op': 'fixed point sle.' + name, 'dims': dims, 'operator': okind, 'complex': cplx, 'ranks': xs.ranks, 'solver': solver})
-    tags = [name, 'solver=' + solver] + (['complex'] if cplx else [])
+    tags = [name, 'solver=' + solver] + (['complex'] if cplx else []) + (['graded_solution'] if graded else [])
     ok, x = call('sle.' + name, fn, A, xs, b, prop=P, tags=tags, refusals=(np.linalg.LinAlgError,), repeats=int(rng.integers(1, 3)), solver=solver)
     if not ok:
         ctx.skip('sle_singular_micro_system')
@@ -172,7 +191,54 @@ def w_fixed_point(ctx, rng, idx):
     ctx.check('sle.' + name, 'exact_solution_is_fixed_point', rel <= 1e-8 * cA, tags, {'rel_change': rel, 'cond': cA, 'dims': dims, 'ranks': xs.ranks}, prop=P)
 
 
+def w_structured(ctx, rng, idx):
+    """exactly representable problems: (scaled) identity and separable diagonal operators with power-of-two entries, right-hand sides
+    made of unit vectors (single unit vector, Bell / GHZ sums, all ones): the solution's singular values across a bond are exactly
+    equal or exactly zero - ties at every rank cut"""
+    d = int(rng.integers(2, 4))
+    n = int(rng.integers(2, 5))
+    dims = [n] * d
+    with probe.oracle():
+        k = int(rng.integers(0, 3))
+        if k == 0:
+            A = float(2.0 ** int(rng.integers(-2, 3))) * tt.eye(dims)
+            okind = 'scaled_identity'
+        else:
+            A = tt.TT([np.diag(2.0 ** rng.integers(-2, 3, size=n).astype(float)).reshape(1, n, n, 1) for _ in range(d)])
+            okind = 'separable_power_of_two_diagonal'
+            if k == 2:
+                A = A + tt.eye(dims)
+                okind += '+identity'
+        u = int(rng.integers(0, 3))
+        if u == 0:
+            b = tt.unit(dims, [int(rng.integers(0, n)) for _ in range(d)])
+            bkind = 'unit_vector'
+        elif u == 1:
+            m = int(rng.integers(2, n + 1))
+            b = None
+            for i in rng.permutation(n)[:m]:
+                t = tt.unit(dims, [int(i)] * d)
+                b = t if b is None else b + t
+            bkind = 'ghz_%d' % m
+        else:
+            b = tt.ones(dims, [1] * d)
+            bkind = 'all_ones'
+        g = tt.ones(dims, [1] * d) if rng.random() < 0.5 else guess(rng, dims, False, ['rank1', 'intermediate', 'maximal'][int(rng.integers(0, 3))])
+    solver = ['solve', 'lu'][int(rng.integers(0, 2))]
+    ctx.describe({'op': 'sle.als/mals on exactly representable problems', 'dims': dims, 'operator': okind, 'rhs': bkind, 'guess_ranks': g.ranks, 'solver': solver})
+    tags = ['structured', 'solver=' + solver]
+    call('sle.als', sle.als, A, g, b, prop=P, tags=['als'] + tags, refusals=(np.linalg.LinAlgError,), repeats=int(rng.integers(1, 3)), solver=solver)
+    for thr in (0, 1e-12, None):
+        kw = {'solver': solver, 'repeats': int(rng.integers(1, 3))}
+        if thr is not None:
+            kw['threshold'] = thr
+        call('sle.mals', sle.mals, A, g, b, prop=P, tags=['mals'] + tags, refusals=(np.linalg.LinAlgError,), **kw)
+        kw['max_rank'] = int(rng.integers(1, n + 1))
+        call('sle.mals', sle.mals, A, g, b, prop=P, tags=['mals', 'capped', 'threshold=%s' % thr] + tags, refusals=(np.linalg.LinAlgError,), **kw)
+
+
 WORKLOADS = [
+    Workload('structured', w_structured, 60, 1500),
     Workload('solve', w_solve, 240, 6000),
     Workload('fixed_point', w_fixed_point, 160, 4000),
 ]
